@@ -1353,9 +1353,21 @@ impl CoreRuntime {
                     // inside the handler overwrites it), so it is consulted only when no frame
                     // was recorded; live ISR bits are the last resort.
                     let stack_mask = self.timer.delivered_masks.pop();
+                    // A RETI outside any handler (a frame the program built by hand, e.g. a task
+                    // switch) serves no request: it must not acknowledge a pending status bit.
+                    let in_handler = self.timer.in_interrupt;
                     let clear_mask = stack_mask
-                        .or_else(|| irq_src.as_deref().and_then(src_mask_for_name))
                         .or_else(|| {
+                            if in_handler {
+                                irq_src.as_deref().and_then(src_mask_for_name)
+                            } else {
+                                None
+                            }
+                        })
+                        .or_else(|| {
+                            if !in_handler {
+                                return None;
+                            }
                             self.memory
                                 .read_internal_byte(IMEM_ISR_OFFSET)
                                 .and_then(|isr| {
